@@ -56,6 +56,9 @@ pub enum Op {
     /// an application attribute (type 0x9E00 + len) that writes its header and value and leaves the
     /// padding bytes of the destination as they are (the destination `build()` hands out is zeroed)
     CustomLazy(u16),
+    /// an application attribute of a zero-sized type (type 0x9F00 + k, no value), handed over as `&*Box::new(..)`:
+    /// every boxed or promoted zero-sized value lives at the same address, whatever its type
+    Zst(u8),
     /// on this thread, before going on: an unrelated message full of 0xFF bytes is built, sealed with
     /// both integrity attributes and fingerprinted (what the library keeps per thread from one message
     /// must not show in the next)
@@ -125,6 +128,32 @@ impl AttributeWrite for LazyAttr {
         dest[offset..offset + v.len()].copy_from_slice(&v);
     }
 }
+
+macro_rules! zst_attr {
+    ($name:ident, $code:expr) => {
+        #[derive(Debug)]
+        pub struct $name;
+        impl Attribute for $name {
+            fn get_type(&self) -> AttributeType {
+                AttributeType::new($code)
+            }
+            fn length(&self) -> u16 {
+                0
+            }
+        }
+        impl AttributeWrite for $name {
+            fn to_raw(&self) -> RawAttribute {
+                RawAttribute::new(self.get_type(), &[]).into_owned()
+            }
+            fn write_into_unchecked(&self, dest: &mut [u8]) {
+                self.write_header_unchecked(dest);
+            }
+        }
+    };
+}
+zst_attr!(Zst0, 0x9F00);
+zst_attr!(Zst1, 0x9F01);
+zst_attr!(Zst2, 0x9F02);
 
 /// `Op::Elsewhere`: an unrelated message built, sealed and fingerprinted on this thread.
 pub fn elsewhere(kind: u8) {
@@ -300,6 +329,7 @@ impl Op {
             Op::Nested(k) => format!("NESTED:{k}"),
             Op::CustomLazy(l) => format!("LAZY:{l}"),
             Op::Elsewhere(k) => format!("ELSEWHERE:{k}"),
+            Op::Zst(k) => format!("ZST:{k}"),
         }
     }
     pub fn from_text(s: &str) -> Op {
@@ -323,6 +353,7 @@ impl Op {
             "NESTED" => Op::Nested(p[1].parse().unwrap()),
             "LAZY" => Op::CustomLazy(p[1].parse().unwrap()),
             "ELSEWHERE" => Op::Elsewhere(p[1].parse().unwrap()),
+            "ZST" => Op::Zst(p[1].parse().unwrap()),
             _ => panic!("harness: bad op text {s}"),
         }
     }
@@ -333,6 +364,7 @@ impl Op {
             Op::Custom(l) => Some(AppAttr::typ(*l)),
             Op::AppMut(_) => Some(MutAttr::TYPE),
             Op::Nested(_) => Some(NestAttr::TYPE),
+            Op::Zst(k) => Some(0x9F00 + (*k % 3) as u16),
             Op::CustomLazy(l) => Some(LazyAttr::typ(*l)),
             Op::Sha1(_) => Some(wire::MI),
             Op::Sha256(_) => Some(wire::MI256),
@@ -433,6 +465,7 @@ pub fn execute_tree(prog: &Prog, mut observe: impl FnMut(usize, &Result<(), WErr
     let apps: Vec<Option<AppAttr>> = prog.ops.iter().map(|op| if let Op::Custom(len) = op { Some(AppAttr { len: *len }) } else { None }).collect();
     let mutattr = MutAttr::default();
     let nests = [NestAttr(0), NestAttr(1)];
+    let zsts: (Box<Zst0>, Box<Zst1>, Box<Zst2>) = (Box::new(Zst0), Box::new(Zst1), Box::new(Zst2));
     let lazies: Vec<Option<LazyAttr>> = prog.ops.iter().map(|op| if let Op::CustomLazy(len) = op { Some(LazyAttr { len: *len }) } else { None }).collect();
     let mut b = real::builder(prog.class, prog.method, prog.tid);
     let mut sib: Option<MessageBuilder> = None;
@@ -441,6 +474,12 @@ pub fn execute_tree(prog: &Prog, mut observe: impl FnMut(usize, &Result<(), WErr
             Op::Typed(..) => b.add_attribute(arena[i].as_ref().unwrap().as_write()).map_err(WErr::from),
             Op::Custom(_) => b.add_attribute(apps[i].as_ref().unwrap()).map_err(WErr::from),
             Op::Nested(k) => b.add_attribute(&nests[(*k % 2) as usize]).map_err(WErr::from),
+            Op::Zst(k) => match *k % 3 {
+                0 => b.add_attribute(&*zsts.0),
+                1 => b.add_attribute(&*zsts.1),
+                _ => b.add_attribute(&*zsts.2),
+            }
+            .map_err(WErr::from),
             Op::CustomLazy(_) => b.add_attribute(lazies[i].as_ref().unwrap()).map_err(WErr::from),
             Op::Elsewhere(k) => {
                 elsewhere(*k);
@@ -609,6 +648,14 @@ impl RefBuilder {
                     return false;
                 }
                 self.attrs.push((NestAttr::TYPE, NestAttr::VALUE.to_vec()));
+                true
+            }
+            Op::Zst(k) => {
+                let t = 0x9F00 + (*k % 3) as u16;
+                if self.has(t) || self.sealed() {
+                    return false;
+                }
+                self.attrs.push((t, vec![]));
                 true
             }
             Op::CustomLazy(l) => {
